@@ -117,6 +117,10 @@ func init() {
 				seenGN[term] = true
 				out.Add("gn", Case{Coq: term, Tag: tag, Desc: map[string]interface{}{"object": what, "ian_dns": c.IANDNSNames}})
 			}
+			if term, tag, ok := gnRawCase(c); ok && !seenGN["raw"+term] {
+				seenGN["raw"+term] = true
+				out.Add("gnraw", Case{Coq: term, Tag: tag, Desc: map[string]interface{}{"object": what}})
+			}
 			rs := zlint.LintCertificate(c).Results
 			for _, p := range lintPairs {
 				ra, rb := rs[p.a], rs[p.b]
